@@ -65,8 +65,38 @@ def make_invariant(spec, conv, d, acc, cfg, build):
                                   expected="no user function evaluated", history=hist, state=sid)
 
                 try:
+                    if m in w.valid.get(sid, ()):
+                        # reference model: requested (or returned by a derivative callback)
+                        # since pos was last assigned on this state or on the one it copies
+                        acc.count("clause_checks")
+                        acc.count("model_valid_checks")
+                        cb = cnt.total()
+                        fn(st)
+                        if cnt.total() != cb:
+                            viol("value_the_history_already_paid_for", cnt.total() - cb)
+                            continue
                     fn(st)
                     c0 = cnt.total()
+                    if not st._read_only:  # noqa: SLF001
+                        # copies keep the value whatever is assigned to the original afterwards
+                        w2 = build(hist)
+                        sys2, cnt2, st2 = w2.systems["A"], w2.counters["A"], w2.states[sid]
+                        getattr(sys2, m)(st2)
+                        cps = [st2.copy(), st2.copy(read_only=True)]
+                        st2.pos = cw.VALS[d]["pos"][1].copy() + 0.375
+                        st2.mom = cw.VALS[d]["mom"][1].copy() - 0.375
+                        c2 = cnt2.total()
+                        bad2 = None
+                        for k2, cp2 in enumerate(cps):
+                            acc.count("clause_checks")
+                            getattr(sys2, m)(cp2)
+                            if cnt2.total() != c2:
+                                bad2 = ("copy", "read_only_copy")[k2]
+                                break
+                        if bad2:
+                            viol("call_on_" + bad2 + "_after_original_reassigned",
+                                 cnt2.total() - c2)
+                            continue
                     acc.count("clause_checks")
                     fn(st)
                     if cnt.total() != c0:
@@ -78,12 +108,14 @@ def make_invariant(spec, conv, d, acc, cfg, build):
                     if cnt.total() != c0:
                         viol("call_on_copy", cnt.total() - c0)
                         continue
-                    if conv == "with_value" or m == "mhp_constr":
+                    if m in AUX and cw.callback_conv(conv, m) == "with_value":
                         aux = AUX.get(m, [])
                         if m == "vjp_metric_func" and spec == "softabs_riemannian":
                             aux = AUX_SOFTABS_VJP
                         if conv != "with_value":
-                            aux = []
+                            # mixed conventions: only what this callback itself returns
+                            aux = [] if m == "vjp_metric_func" and spec == "softabs_riemannian" \
+                                else cw.AUX_RETURNS[m]
                         bad = None
                         for a in aux:
                             if a not in w.methods:
@@ -128,7 +160,12 @@ def explore_class(cfg, acc):
     def enabled(w, hist):
         return [] if w.failed is not None else w.enabled_ops()
 
-    res = bfs(build, enabled, cw.canon, inv, depth, invariant_new_only=True)
+    def canon18(w):
+        # the reference model's validity sets are part of the state: two histories with the same
+        # real cache but different obligations are both checked
+        return (cw.canon(w), tuple((k, tuple(sorted(v))) for k, v in sorted(w.valid.items())))
+
+    res = bfs(build, enabled, canon18, inv, depth, invariant_new_only=True)
     acc.count("states", res["states"])
     acc.count("transitions", res["transitions"])
     if len(acc.samples) < 2:
@@ -262,7 +299,13 @@ def configs(tier, seed):
     cfgs = []
     depth = 2 if tier == "quick" else 3
     for spec, _ in cw.SYSTEM_SPECS:
-        for conv in cw.CONVS:
+        for conv in cw.CONVS + cw.CONVS_MIXED:
+            if conv == "mixed_mid" and spec != "softabs_riemannian":
+                continue
+            if conv == "mixed_top" and not (set(cw.methods_of(dict(cw.SYSTEM_SPECS)[spec]))
+                                            & {"mhp_constr", "mtp_neg_log_dens",
+                                               "vjp_metric_func"}):
+                continue
             cfgs.append({"mode": "bfs", "spec": spec, "conv": conv, "d": 2, "depth": depth,
                          "seed": seed})
     for spec in ("euclidean", "euclidean_identity", "gaussian"):
